@@ -137,6 +137,9 @@ func (db *DB) Start(initCheckpoints []recovery.CheckpointHandle) error {
 	db.sstables = latestCP.Levels
 	db.seqNum = latestCP.Levels.LatestSeqNum
 
+	// New tables must not take the file names of tables the checkpoint references.
+	db.tableWriter.SkipTo(latestCP.NextTableID())
+
 	// Start a new writer that doesn't write to a file yet.
 	db.wal = wal.NewWriter(db.fs, latestCP.NextWALID(), db.maxWALSize)
 
